@@ -1,7 +1,9 @@
 #!/bin/sh
 # usage: subset_tests.sh '<nextest filter expr>'  -- runs a subset of the pinned suite and compares with stable_pass
 cd /repo
+rm -f /repo/target/nextest/pb/junit.xml
 cargo nextest run --offline --no-fail-fast --tool-config-file pb:/w/lib/nextest.toml --profile pb --test-threads 12 -E "$1" >/tmp/verif-subset.log 2>&1
+if grep -q '^error: command .*--no-run' /tmp/verif-subset.log || [ ! -f /repo/target/nextest/pb/junit.xml ]; then echo 'TEST BUILD FAILED'; grep -n '^error' -A8 /tmp/verif-subset.log | head -40; exit 2; fi
 python3 - <<'PY'
 import json, xml.etree.ElementTree as ET
 base=set(json.load(open('/root/.vp/BASELINE.json'))['stable_pass'])
